@@ -360,14 +360,20 @@ pub fn gen_source(cfg: &Cfg, max_len: usize) -> (SourceSpec, Vec<u8>) {
     let len = gen_len(cfg, max_len);
     let mut spec = gen_source_spec(len);
     let mut data = expand(&spec);
-    // workload cap. A tiny minimum chunk size paired with data on which every window hash
+    cap_chunks(cfg, &mut spec, &mut data);
+    (spec, data)
+}
+
+/// Cut `data` so that it has at most MAX_CHUNKS chunks under `cfg`.
+pub fn cap_chunks(cfg: &Cfg, spec: &mut SourceSpec, data: &mut Vec<u8>) {
+    // Workload cap. A tiny minimum chunk size paired with data on which every window hash
     // matches (long zero runs under BuzHash) yields millions of one-byte chunks: legitimate, but
     // one run then costs minutes and needs more polls than the livelock budget allows (seen once
     // in 1.4 M thorough C03 runs: a StepBudget false alarm). The source is cut at a chunk
     // boundary, so the kept chunks are exactly those of the longer source.
     let floor = if cfg.algo == Algo::Fixed { cfg.max } else { cfg.min }.max(1);
     if data.len() / floor > MAX_CHUNKS {
-        let chunks = crate::refmodel::chunker::ref_chunks(cfg, &data);
+        let chunks = crate::refmodel::chunker::ref_chunks(cfg, data);
         if chunks.len() > MAX_CHUNKS {
             let (o, l) = chunks[MAX_CHUNKS - 1];
             data.truncate(o + l);
@@ -376,7 +382,6 @@ pub fn gen_source(cfg: &Cfg, max_len: usize) -> (SourceSpec, Vec<u8>) {
             simkit::count("probe:source-capped-at-chunk-limit");
         }
     }
-    (spec, data)
 }
 
 /// most chunks one generated source may have
